@@ -2,6 +2,7 @@
 intermediate value matters for the printed result, so that reclaiming a reachable object shows."""
 
 KERNELS = {}
+FILL = "\n".join('let fl%d = ["f" .. %d]' % (i, i) for i in range(14))
 
 
 def k(name, src):
@@ -417,3 +418,99 @@ for i in 5 {
 println(out)
 println(fl0[0] .. fl13[0])
 """)
+
+
+# Insertion barrier: `src` (first heap local: scanned LAST) still holds unscanned rows, `dst` (last heap
+# local: scanned FIRST) is already black when a row is moved out of `src` into it. Without the
+# barrier on the store the row is reachable only through a black object and is swept.
+k("late-barrier-setfield", """
+type Slot = {
+  item: array<string>
+}
+let src = [["a" .. 1, "b" .. 1], ["a" .. 2, "b" .. 2], ["a" .. 3, "b" .. 3], ["a" .. 4, "b" .. 4]]
+%(fill)s
+let slot = Slot(["z" .. 0])
+var out = ""
+while src.len() > 0 {
+  slot.item = src.pop()
+  let junk = [["j" .. src.len()], ["k" .. src.len()]]
+  out = out .. slot.item[0] .. slot.item[1] .. junk[1][0]
+}
+println(out)
+println(fl0[0] .. fl13[0])
+""" % {"fill": FILL})
+
+k("late-barrier-setindex", """
+let src = [["a" .. 1, "b" .. 1], ["a" .. 2, "b" .. 2], ["a" .. 3, "b" .. 3], ["a" .. 4, "b" .. 4]]
+%(fill)s
+let dst = [["z" .. 0], ["y" .. 0]]
+var out = ""
+var i = 0
+while src.len() > 0 {
+  dst[i %% 2] = src.pop()
+  i = i + 1
+  let junk = [["j" .. i], ["k" .. i]]
+  out = out .. dst[0][0] .. dst[1][0] .. junk[0][0]
+}
+println(out)
+println(dst)
+println(fl0[0] .. fl13[0])
+""" % {"fill": FILL})
+
+k("late-barrier-push", """
+let src = [["a" .. 1, "b" .. 1], ["a" .. 2, "b" .. 2], ["a" .. 3, "b" .. 3], ["a" .. 4, "b" .. 4]]
+%(fill)s
+let dst: array<array<string>> = [["z" .. 0]]
+while src.len() > 0 {
+  dst.push(src.pop())
+  let junk = [["j" .. dst.len()], ["k" .. dst.len()]]
+}
+println(dst)
+println(fl0[0] .. fl13[0])
+""" % {"fill": FILL})
+
+k("late-barrier-nested-field", """
+type Inner = {
+  rows: array<string>
+}
+type Outer = {
+  inner: Inner
+  n: int
+}
+let src = [Inner(["a" .. 1]), Inner(["a" .. 2]), Inner(["a" .. 3]), Inner(["a" .. 4])]
+%(fill)s
+let dst = Outer(Inner(["z" .. 0]), 0)
+var out = ""
+while src.len() > 0 {
+  dst.inner = src.pop()
+  dst.inner.rows = [dst.inner.rows[0] .. "+", "n" .. dst.n]
+  dst.n = dst.n + 1
+  let junk = [["j" .. src.len()]]
+  out = out .. dst.inner.rows[0] .. dst.inner.rows[1]
+}
+println(out)
+println(fl0[0] .. fl13[0])
+""" % {"fill": FILL})
+
+k("late-barrier-variant-into-field", """
+type Tree =
+  | Leaf(string)
+  | Node(array<string>)
+type Holder = {
+  t: Tree
+}
+let src = [Tree.Node(["a" .. 1, "b" .. 1]), Tree.Leaf("c" .. 2), Tree.Node(["a" .. 3]), Tree.Leaf("c" .. 4)]
+%(fill)s
+let dst = Holder(Tree.Leaf("z" .. 0))
+var out = ""
+while src.len() > 0 {
+  dst.t = src.pop()
+  let junk = [["j" .. src.len()], ["k"]]
+  match dst.t {
+    .Leaf(x) -> { out = out .. x }
+    .Node(xs) -> { out = out .. xs[0] .. xs.len() }
+  }
+}
+println(out)
+println(fl0[0] .. fl13[0])
+""" % {"fill": FILL})
